@@ -39,6 +39,15 @@ check('C17', TV,
       BASE_NOTE, 'SMT (z3) equivalence of substitution result vs semantic substitution, per enumerated triple',
       'DESIGN.md 5 (C17)')
 
+check('C07', TV,
+      'Every enumerated formula is pushed through the real portfolios (intuitionistic, ht, classic) under shallow, '
+      'recursive and fixpoint application and through each of the 15 single rewrites; for every changed output z3 decides '
+      'equivalence with the input over ALL HT interpretations (intuitionistic/ht) or ALL classical interpretations '
+      '(classic), and the free-variable inclusion is checked on the trees.',
+      BASE_NOTE + ' One open known finding (duplicate equality conjunct) is attributed causally, see known_findings.json.',
+      'SMT (z3) equivalence of simplifier input vs real simplifier output, per enumerated formula and configuration',
+      'DESIGN.md 5 (C07)')
+
 NOT_APPLICABLE = [
     ('C10', 'thread pool + process spawning + regex over prover output: no symbolic reach for Kani/CBMC (no concurrency/process model) and nothing for an SMT encoding to carry; see DESIGN.md 6'),
     ('C11', 'graph algorithms over HashMap/petgraph/IndexSet on concrete programs: nothing left for a solver to quantify over, and symbolic programs are out of reach (DESIGN.md 1.1, 6)'),
